@@ -31,13 +31,33 @@ type Report struct {
 	Pb    int    `json:",omitempty"`
 	X, Y  int    `json:",omitempty"`
 	Final string `json:",omitempty"`
+	// key reports: ModsP1 = 1 + the expected Shift(1)/Alt(2)/Ctrl(4) mask, 0 = not
+	// judged; Cls = class of the encoding (see specs/input/ReportsKeys.tla);
+	// Opt = the bytes may as well be a reply (zero or one event)
+	ModsP1 int    `json:",omitempty"`
+	Cls    string `json:",omitempty"`
+	Opt    bool   `json:",omitempty"`
 }
+
+// CodeF3 is the symbolic key code of F3 in reports and logged events (the
+// library's public constant KeyF03 is mapped to it when events are logged).
+const CodeF3 = -103
 
 type Step struct {
 	Op      string   // inject | call
 	Reports []Report `json:",omitempty"` // inject: sent as one chunk
 	What    string   `json:",omitempty"` // call: bg fg color cpr clipboard; reply timing in Reply
-	Reply   string   `json:",omitempty"` // call: "ontime" | "late" | "never" | "twice"
+	Reply   string   `json:",omitempty"` // call: "ontime" | "late" | "never" | "twice" | "early" | "slow" (25 ms, inside the time-out)
+	// inject: silence after the chunk (ms)
+	PauseMs int `json:",omitempty"`
+	// call cpr: Row, Col > 0 = where the terminal's cursor is (1-based); Reports of a
+	// call step = what its reply may mean to the application when it comes late (an
+	// optional key, or nothing) and, with InjectAtMs > 0, the key presses sent that many
+	// ms after the call started (while the query is outstanding); Wants = further answers
+	// the protocol allows (an ambiguous key report read as the reply)
+	Row, Col   int      `json:",omitempty"`
+	InjectAtMs int      `json:",omitempty"`
+	Wants      []string `json:",omitempty"`
 }
 
 type Scn struct {
@@ -125,7 +145,11 @@ func evType(t vaxis.EventType) string {
 func conv(ev vaxis.Event) (map[string]any, bool) {
 	switch e := ev.(type) {
 	case vaxis.Key:
-		return map[string]any{"t": "key", "code": int(e.Keycode), "paste": e.EventType == vaxis.EventPaste, "text": e.Text}, true
+		code := int(e.Keycode)
+		if e.Keycode == vaxis.KeyF03 {
+			code = CodeF3
+		}
+		return map[string]any{"t": "key", "code": code, "paste": e.EventType == vaxis.EventPaste, "text": e.Text, "mods": mods(e.Modifiers)}, true
 	case vaxis.Mouse:
 		return map[string]any{"t": "mouse", "button": int(e.Button), "type": evType(e.EventType), "mods": mods(e.Modifiers),
 			"col": e.Col, "row": e.Row}, true
@@ -170,6 +194,10 @@ func Execute(sc *Scn) *Result {
 		case "late":
 			q := append([]byte(nil), p...)
 			go func() { time.Sleep(90 * time.Millisecond); resp.OnWrite(q) }()
+			return
+		case "slow":
+			q := append([]byte(nil), p...)
+			go func() { time.Sleep(25 * time.Millisecond); resp.OnWrite(q) }()
 			return
 		case "early":
 			// the reply is on the wire before the write call returns to the requester
@@ -278,7 +306,25 @@ func Execute(sc *Scn) *Result {
 				time.Sleep(60 * time.Millisecond)
 				paused.Store(false)
 			}
+			if st.PauseMs > 0 {
+				time.Sleep(time.Duration(st.PauseMs) * time.Millisecond)
+			}
 		case "call":
+			if !sc.Loose && !sync1() { // a judged stream: nothing of it is still in flight when the query goes out
+				res.Stalled = true
+				res.Note = "stalled before a call"
+				return res
+			}
+			if st.Row > 0 && st.Col > 0 {
+				resp.Row, resp.Col = st.Row, st.Col
+			}
+			if st.InjectAtMs > 0 {
+				var b []byte
+				for _, r := range st.Reports {
+					b = append(b, unhex(r.Hex)...)
+				}
+				go func(d int) { time.Sleep(time.Duration(d) * time.Millisecond); con.Inject(b) }(st.InjectAtMs)
+			}
 			rmu.Lock()
 			replyMode = st.Reply
 			rmu.Unlock()
@@ -318,6 +364,7 @@ func Execute(sc *Scn) *Result {
 					a.Want = "zero"
 				}
 				a.Wants = append([]string{a.Want}, reported[st.What]...)
+				a.Wants = append(a.Wants, st.Wants...)
 				if st.What == "cpr" {
 					a.Wants = append(a.Wants, "-1,-1") // a loaded machine may miss the 50 ms deadline
 				}
@@ -327,6 +374,9 @@ func Execute(sc *Scn) *Result {
 			}
 			if st.Reply == "late" {
 				time.Sleep(120 * time.Millisecond) // let the late reply arrive (now unsolicited)
+			}
+			if st.Reply == "slow" {
+				time.Sleep(60 * time.Millisecond) // the reply has arrived whoever took it
 			}
 			rmu.Lock()
 			replyMode = "ontime"
@@ -567,6 +617,141 @@ func Queries(rng *rand.Rand) *Scn {
 			reply = []string{"ontime", "early", "late", "never"}[rng.Intn(4)]
 		}
 		sc.Steps = append(sc.Steps, Step{Op: "call", What: w, Reply: reply})
+	}
+	return sc
+}
+
+// ---- key reports judged beyond "one key event" (specs/input/ReportsKeys.tla) ----
+
+// plain: one printable ASCII byte = that character, no modifier.
+func plain(c rune) Report { return Report{K: "key", Hex: hx(string(c)), Code: int(c), ModsP1: 1} }
+
+func plainKeys(rng *rand.Rand, n int) []Report {
+	var rs []Report
+	for ; n > 0; n-- {
+		if rng.Intn(4) == 0 {
+			rs = append(rs, plain('0'+rune(rng.Intn(10))))
+		} else {
+			rs = append(rs, plain('a'+rune(rng.Intn(26))))
+		}
+	}
+	return rs
+}
+
+// c0Key: a key whose legacy encoding is one control byte (Enter, Tab, Backspace, Ctrl+letter).
+func c0Key(b byte) Report { return Report{K: "key", Hex: hx(string(rune(b))), Code: -1, Cls: "c0"} }
+
+// EscC0ThenKeys: a legacy Alt chord of a control key (ESC + control byte: Alt+Enter,
+// Alt+Tab, Alt+Backspace, Ctrl+Alt+letter), silence, then ordinary key presses: each
+// is one event, and the later ones are the keys that were pressed (no modifier).
+func EscC0ThenKeys(rng *rand.Rand) *Scn {
+	sc := &Scn{Kind: "esc-c0-then-keys", Mask: rng.Intn(1 << 15), Alt: rng.Intn(2) == 0}
+	c0s := []byte{0x0d, 0x09, 0x08, 0x01, 0x0d, 0x09, 0x02, 0x1f, 0x00, 0x18, 0x1a}
+	first := plainKeys(rng, rng.Intn(3))
+	b := c0s[rng.Intn(len(c0s))]
+	first = append(first, Report{K: "key", Hex: hx("\x1b" + string(rune(b))), Code: -1, Cls: "escc0"})
+	sc.Steps = append(sc.Steps, Step{Op: "inject", Reports: first, PauseMs: []int{0, 15, 60, 300}[rng.Intn(4)]})
+	var rest []Report
+	for k := rng.Intn(3); k > 0; k-- { // control-byte keys in between
+		rest = append(rest, c0Key([]byte{0x0d, 0x09, 0x03, 0x08}[rng.Intn(4)]))
+	}
+	rest = append(rest, plainKeys(rng, 1+rng.Intn(3))...)
+	if rng.Intn(2) == 0 {
+		rest = append(rest, key("\x1b[A", -1))
+		rest = append(rest, plainKeys(rng, 1+rng.Intn(2))...)
+	}
+	if rng.Intn(2) == 0 {
+		sc.Steps = append(sc.Steps, Step{Op: "inject", Reports: rest})
+	} else { // key by key
+		for _, r := range rest {
+			sc.Steps = append(sc.Steps, Step{Op: "inject", Reports: []Report{r}, PauseMs: rng.Intn(3) * 12})
+		}
+	}
+	return sc
+}
+
+// EscPrefixed: ESC followed at once by a key that is not an ASCII character: a
+// non-ASCII character (legacy Alt+é), Escape (Alt+Escape), an Escape-prefixed
+// cursor key (ESC ESC [ A: Alt+Up of rxvt): one event each, then ordinary keys.
+func EscPrefixed(rng *rand.Rand) *Scn {
+	sc := &Scn{Kind: "esc-prefixed-key", Mask: rng.Intn(1 << 15), Alt: rng.Intn(2) == 0}
+	rs := plainKeys(rng, rng.Intn(3))
+	pause := 0
+	switch rng.Intn(4) {
+	case 0, 1:
+		c := []rune{'é', 'ü', 'ж', '世', 'ß', 0x1F600}[rng.Intn(6)]
+		rs = append(rs, Report{K: "key", Hex: hx("\x1b" + string(c)), Code: int(c), Cls: "esc-nonascii"})
+		if rng.Intn(2) == 0 {
+			rs = append(rs, plainKeys(rng, 1+rng.Intn(2))...) // in the same read
+		}
+	case 2:
+		rs = append(rs, Report{K: "key", Hex: hx("\x1b\x1b"), Code: 27, Cls: "esc-esc"})
+		pause = 40 // the second ESC is complete only after silence
+	case 3:
+		rs = append(rs, Report{K: "key", Hex: hx("\x1b\x1b[A"), Code: -1, Cls: "esc-esc-csi"})
+	}
+	sc.Steps = append(sc.Steps, Step{Op: "inject", Reports: rs, PauseMs: pause})
+	sc.Steps = append(sc.Steps, Step{Op: "inject", Reports: plainKeys(rng, 1+rng.Intn(3))})
+	return sc
+}
+
+// EscSosPm: legacy Alt+Shift+x / Alt+^ (ESC X, ESC ^: in ECMA-48 the introducers of the
+// SOS and PM strings, which no terminal sends as a report), then ordinary keys.
+func EscSosPm(rng *rand.Rand) *Scn {
+	sc := &Scn{Kind: "esc-sos-pm-key", Mask: rng.Intn(1 << 15), Alt: rng.Intn(2) == 0}
+	c := []rune{'X', '^'}[rng.Intn(2)]
+	code := int(c)
+	if c == 'X' {
+		code = 'x'
+	}
+	rs := plainKeys(rng, rng.Intn(2))
+	rs = append(rs, Report{K: "key", Hex: hx("\x1b" + string(c)), Code: code, Cls: "esc-sos-pm"})
+	sc.Steps = append(sc.Steps, Step{Op: "inject", Reports: rs, PauseMs: 20})
+	sc.Steps = append(sc.Steps, Step{Op: "inject", Reports: plainKeys(rng, 1+rng.Intn(3))})
+	sc.Steps = append(sc.Steps, Step{Op: "inject", Reports: append([]Report{key("\x1b[A", -1)}, plainKeys(rng, 1)...)})
+	return sc
+}
+
+// CprTiming: cursor position requests against reply timings, in a strict key stream.
+// A report CSI r;c R with r != 1 is never a key press: whenever it arrives it is consumed.
+// CSI 1;c R is also F3 with modifiers: either reading (optional event). F3 pressed while
+// a request is outstanding: CSI R can not be the report and is delivered; CSI 1;m R may
+// be taken for it (then the answer is row 1, column m).
+func CprTiming(rng *rand.Rand) *Scn {
+	sc := &Scn{Kind: "cpr-timing", Mask: rng.Intn(1<<15) &^ (1 << 4), Alt: rng.Intn(2) == 0}
+	n := 1 + rng.Intn(2)
+	for i := 0; i < n; i++ {
+		if rng.Intn(2) == 0 {
+			sc.Steps = append(sc.Steps, Step{Op: "inject", Reports: plainKeys(rng, 1+rng.Intn(2))})
+		}
+		row, col := 2+rng.Intn(23), 1+rng.Intn(80)
+		st := Step{Op: "call", What: "cpr", Row: row, Col: col}
+		switch rng.Intn(8) {
+		case 0, 1, 2: // the reply comes after the time-out
+			st.Reply = "late"
+		case 3: // ... with the cursor on the first row: the late reply reads as an F3 chord too
+			st.Reply, st.Row = "late", 1
+			st.Reports = []Report{{K: "key", Hex: "", Code: -1, Cls: "cpr-row1-late", Opt: true}}
+		case 4: // no reply at all
+			st.Reply = "never"
+		case 5: // in time
+			st.Reply = []string{"ontime", "early", "slow"}[rng.Intn(3)]
+		case 6: // F3 pressed while the request is outstanding
+			st.Reply, st.InjectAtMs = "slow", 5
+			st.Reports = []Report{{K: "key", Hex: hx("\x1b[R"), Code: CodeF3, Cls: "f3-while-cpr-outstanding"}}
+		case 7: // Shift/Ctrl+F3 pressed while the request is outstanding: ambiguous
+			m := []int{2, 5, 3, 6}[rng.Intn(4)]
+			st.Reply, st.InjectAtMs = "slow", 5
+			st.Reports = []Report{{K: "key", Hex: hx(fmt.Sprintf("\x1b[1;%dR", m)), Code: CodeF3, Cls: "f3-chord-while-cpr-outstanding", Opt: true}}
+			st.Wants = []string{fmt.Sprintf("0,%d", m-1)}
+		}
+		sc.Steps = append(sc.Steps, st)
+		tail := plainKeys(rng, 1+rng.Intn(2))
+		if rng.Intn(3) == 0 { // F3 once nothing is outstanding any more: a key press
+			tail = append(tail, Report{K: "key", Hex: hx([]string{"\x1b[R", "\x1b[1;2R"}[rng.Intn(2)]), Code: CodeF3, Cls: "f3"})
+			tail = append(tail, plainKeys(rng, 1)...)
+		}
+		sc.Steps = append(sc.Steps, Step{Op: "inject", Reports: tail})
 	}
 	return sc
 }
